@@ -209,6 +209,12 @@ func RoutingFile(baseIdx int, sub, pkg, goImport, goName string, lit *int, full 
 				add("shared", v, g.label, g.tmpl, g.vars, true, true)
 			}
 		}
+		// the same path shape under different verbs with DIFFERENT variable names: every generator
+		// must keep each RPC's own template (a path-item table keyed by shape would merge them)
+		litOverride = "s9"
+		add("shared", "GET", "same-shape-var-a", "/%s/{id}", []string{"id"}, true, true)
+		add("shared", "DELETE", "same-shape-var-b", "/%s/{user_id}", []string{"user_id"}, true, true)
+		add("shared", "PUT", "same-shape-var-c", "/%s/{num}", []string{"num"}, true, true)
 		litOverride = ""
 	case "bodyquery":
 		// body verbs with query-annotated fields (generators place them differently)
